@@ -192,6 +192,53 @@ def _type(ex, e, args, kwargs, p):
     return [(app("py_type", asV(args[0])), p)]
 
 
+@lib("map", "A-cpython")
+def _map(ex, e, args, kwargs, p):
+    return [(app("py_map", *[asV(a) for a in args]), p)]
+
+
+@lib("filter", "A-cpython")
+def _filter(ex, e, args, kwargs, p):
+    return [(app("py_filter", *[asV(a) for a in args]), p)]
+
+
+@lib("reversed", "A-cpython")
+def _reversed(ex, e, args, kwargs, p):
+    return [(app("py_reversed", asV(args[0])), p)]
+
+
+@lib("sum", "A-cpython")
+def _sum(ex, e, args, kwargs, p):
+    return [(app("py_sum", *[asV(a) for a in args]), p)]
+
+
+@lib("round", "A-cpython")
+def _round(ex, e, args, kwargs, p):
+    return [(app("py_round", *[asV(a) for a in args]), p)]
+
+
+@lib("id", "A-cpython")
+def _id(ex, e, args, kwargs, p):
+    return [(app("py_id", asV(args[0])), p)]
+
+
+@lib("hash", "A-cpython")
+def _hash(ex, e, args, kwargs, p):
+    return [(app("py_hash", asV(args[0])), p)]
+
+
+@lib("json.dumps", "A-cpython")
+def _jsondumps(ex, e, args, kwargs, p):
+    return [(app("json_dumps", asV(args[0])), p)]
+
+
+for _n in ("round", "around", "any", "iscomplex", "isreal", "real", "imag", "iscomplexobj", "isrealobj", "isfinite", "isnan", "floor", "ceil", "trunc",
+           "float64", "int64", "complex128", "asarray", "squeeze", "ravel", "transpose", "zeros", "ones", "shape", "size", "conj", "angle", "sign",
+           "multiply", "divide", "add", "subtract", "negative", "reciprocal", "true_divide", "float_power", "square", "unique", "sort", "argsort"):
+    FUNCS["np." + _n] = ((lambda name: (lambda ex, e, args, kwargs, p: partial(ex, p, e, "np_" + name + "".join("_" + k for k in sorted(kwargs)),
+                                                                             *args, *[v for k, v in sorted(kwargs.items())])))(_n), "A-numpy-arith")
+
+
 @lib("min", "A-cpython")
 def _min(ex, e, args, kwargs, p):
     return [(app("py_min", *[asV(a) for a in args]), p)]
@@ -351,7 +398,12 @@ def _resub(ex, e, args, kwargs, p):
 
 for _n in ("antlr4.FileStream", "antlr4.InputStream", "antlr4.CommonTokenStream", "blackbirdLexer", "blackbirdParser", "antlr4.ParseTreeWalker",
            "BlackbirdErrorListener"):
-    FUNCS[_n] = ((lambda name: (lambda ex, e, args, kwargs, p: [(app("NEW_" + name.replace(".", "_"), *[asV(a) for a in args]), p)]))(_n), "A-antlr-tree")
+    def _mk(name):
+        def h(ex, e, args, kwargs, p):
+            obj = app("NEW_" + name.replace(".", "_"), *[asV(a) for a in args])
+            return [(obj, p.assume(z3.And(obj != NONE, truthy(obj))))]       # a constructor never returns None
+        return h
+    FUNCS[_n] = (_mk(_n), "A-antlr-tree")
 
 
 # ---------------------------------------------------------------------------------------------------------------------
